@@ -28,7 +28,12 @@ def main():
                 "engine": "vf",
                 "level_claimed": {
                     "category": mon.LEVEL,
-                    "text": mon.LEVEL_TEXT if hasattr(mon, "LEVEL_TEXT") else (mon.__doc__ or "").strip().split("\n\n")[0],
+                    "text": mon.LEVEL_TEXT
+                    if hasattr(mon, "LEVEL_TEXT")
+                    else " ".join((mon.__doc__ or "").split())
+                    + " || Explored per run: "
+                    + mon.RULE
+                    + " || Verdict: held on the executions observed (counts in the evidence file), never 'verified'; a run whose deciding counters are too low exits 2 (inconclusive).",
                     "design_ref": f"DESIGN.md section 3, {p}",
                 },
                 "level_note": "; ".join(getattr(mon, "ASSUMPTIONS", [])) or "oracles O1-O7 of DESIGN.md section 2.4 are trusted",
